@@ -455,6 +455,26 @@ def rule_rotation_seals_segment(cx):
                          "fsync-skipped-unconditionally|%s" % sb.id, sb.where(x))
 
 
+def _replay_truncates_torn_tail(cx):
+    f = cx.f
+    rb = f.body("wal::recovery::replay_wal")
+    rd = [c for c in rb.calls if c.bb in rb.live and c.names & {"wal::reader::Reader::read", "Reader::read"}]
+    cuts = [c for c in rb.calls if c.bb in rb.live and (c.names & {"std::fs::File::set_len"} or f.call_must_reach(c, {"std::fs::File::set_len"}))]
+    if not rd or not cuts:
+        return False
+    good = False
+    for c in cuts:
+        # the new length is the offset Reader::read reported for the last complete record
+        lens = [origin_of_operand(rb, a, through_calls="all") for a in c.args]
+        from_offset = any(any(x in rd for x in o.calls) for o in lens)
+        # only on the arm taken when the reader reports the end of the log, not on corruption (repair handles that)
+        in_loop = c.bb in loop_of(rb, rd[0].bb) or c.bb in rb.reachable_after([rd[0].bb])
+        good = good or (from_offset and in_loop)
+    cx.note("replay_wal truncates the torn tail of the last segment: %s" % good)
+    # and the writer is opened after that replay (rule_open_after_repair checks the order in Core::new / restore)
+    return good
+
+
 def rule_append_after_validated_tail(cx):
     f = cx.f
     b = f.body("Wal::create_writer")
@@ -466,6 +486,10 @@ def rule_append_after_validated_tail(cx):
         n += 1
         validated = [x for x in b.calls if x.bb in b.live and f.call_may_reach(x, {"wal::reader::Reader::read", "std::fs::File::set_len"})]
         ok = bool(validated) and b.set_dominates([x.bb for x in validated], c.bb)
+        if not ok:
+            # alternative protocol: the replay that precedes the (re)opening of the writer cuts the torn tail off itself --
+            # on the clean end-of-log arm of the LAST segment it shortens the file to the end of the last complete record
+            ok = _replay_truncates_torn_tail(cx)
         cx.check(ok, "appending to an existing segment is preceded by validating/truncating its tail", "append-after-unvalidated-tail", c.where(),
                  "Wal::create_writer resumes an existing segment at `file length %% BLOCK_SIZE` without validating the tail: after a torn write (partial header or "
                  "record) new records are appended behind garbage and are cut off by the next recovery/repair")
